@@ -26,6 +26,8 @@ type progExt struct {
 	edts      []bool
 	shortPct  []int // with an edit list: the presentation (tkhd duration, elst segment) covers only this percentage of the media (0 = all)
 	mediaTime []int64
+	elstSplit []int // with an edit list: percentage of the presentation taken by a leading empty edit (0 = single entry)
+	mvhdMode  int   // movie header duration: 0 = longest track, 1 = shortest track, 2 = 0 ("unknown": under-reports)
 	uniform   []bool
 	cttsV1    []bool
 	mvhdTS    uint32
@@ -205,6 +207,21 @@ func genProgExt(r *rand.Rand, nTracks, maxSamples int, flavor string) *progExt {
 			sp = 30 + r.Intn(60)
 		}
 		pe.shortPct = append(pe.shortPct, sp)
+		// derived generator: does not disturb the main random stream
+		r2 := rand.New(rand.NewSource(int64(len(t.durs))*7919 + int64(o.timescale)*31 + int64(i)))
+		es := 0
+		if r2.Intn(3) == 0 {
+			es = 5 + r2.Intn(60)
+		}
+		pe.elstSplit = append(pe.elstSplit, es)
+		if i == 0 {
+			switch r2.Intn(12) {
+			case 0:
+				pe.mvhdMode = 1
+			case 1:
+				pe.mvhdMode = 2
+			}
+		}
 		mt := int64(0)
 		if t.hasCtts && r.Intn(2) == 0 {
 			mt = int64(o.base)
@@ -334,6 +351,11 @@ func (pe *progExt) buildExt(r *rand.Rand) {
 		if pe.edts[i] {
 			edts := &mp4.EdtsBox{}
 			elst := &mp4.ElstBox{Entries: []mp4.ElstEntry{{SegmentDuration: trak.Tkhd.Duration, MediaTime: pe.mediaTime[i], MediaRateInteger: 1}}}
+			if es := pe.elstSplit[i]; es > 0 && trak.Tkhd.Duration > 2 {
+				d0 := trak.Tkhd.Duration * uint64(es) / 100
+				elst.Entries = []mp4.ElstEntry{{SegmentDuration: d0, MediaTime: -1, MediaRateInteger: 1},
+					{SegmentDuration: trak.Tkhd.Duration - d0, MediaTime: pe.mediaTime[i], MediaRateInteger: 1}}
+			}
 			edts.Elst = append(edts.Elst, elst)
 			edts.Children = append(edts.Children, elst)
 			var kids []mp4.Box
@@ -348,6 +370,16 @@ func (pe *progExt) buildExt(r *rand.Rand) {
 		}
 	}
 	moov.Mvhd.Duration = maxDur
+	switch pe.mvhdMode {
+	case 1:
+		for _, trak := range moov.Traks {
+			if trak.Tkhd.Duration < moov.Mvhd.Duration {
+				moov.Mvhd.Duration = trak.Tkhd.Duration
+			}
+		}
+	case 2:
+		moov.Mvhd.Duration = 0
+	}
 	ftyp := mp4.NewFtyp("isom", 0x200, []string{"isom", "iso2", "avc1", "mp41"})
 	hdr := 8
 	if pf.largeMdat {
